@@ -284,7 +284,8 @@ void mat_arith(const char* tag, const M& A, const M& B, T k) {
 }
 
 // Inverse on an integer tensor scaled by 2^e: absent iff the integer determinant is zero; otherwise
-// each component is the correctly rounded quotient adj/det (scaled by 2^-e), and A * inverse = I.
+// each component is the quotient adj/det (scaled by 2^-e) to 4 ulps, and A * inverse = I. The scales include one at which
+// the determinant (an exact small integer times 2^3e) is a subnormal number while the tensor and its inverse are ordinary.
 template <class T, class M>
 void inverse_check(const char* tag, const M& A0, int e) {
   const RM<LL> R = rm<LL>(A0);
@@ -307,8 +308,10 @@ void inverse_check(const char* tag, const M& A0, int e) {
   vf::comps(inv.value(), got);
   flat(adj, n, a);
   for (int i = 0; i < n; i++) {
+    // the exact quotient adj/det, 2^-e exactly; the statement asks for "a few ulps" where the result is not an integer
+    const f128 exact = scalbnq((f128)a[i] / (f128)det, -e);
     const T want = std::ldexp((T)a[i] / (T)det, -e);
-    if (!(got[i] == want)) {
+    if (!(vf::ulps<T>(got[i], exact) <= 4.0)) {
       vf::viol(key + "|component" + std::to_string(i), "{\"integer_tensor\":" + vf::comps_hex(A0) + ",\"scale_exponent\":" + std::to_string(e) +
                                                             ",\"observed\":" + vf::jstr(vf::hex(got[i])) + ",\"expected\":" + vf::jstr(vf::hex(want)) + "}");
       return;
@@ -389,6 +392,16 @@ void integer_grids() {
       // embeddings: Vector(PlanarVector) and back
       expect<T>("Vector(PlanarVector)", V(a), rv<LL>(a), DESC1(a));
       expect<T>("PlanarVector(Vector)", PV(V(a)), rv<LL>(a), DESC1(a));
+      if constexpr (std::is_assignable_v<V&, const PV&>) {
+        V g(7, 8, 9);
+        g = a;
+        expect<T>("Vector = PlanarVector", g, rv<LL>(a), DESC1(a));
+      }
+      if constexpr (std::is_assignable_v<PV&, const V&>) {
+        PV g(7, 8);
+        g = V(b.x(), b.y(), (T)5);
+        expect<T>("PlanarVector = Vector", g, rv<LL>(b), DESC1(b));
+      }
     }
   for (auto& a : vs)
     if (mine(idx++)) {
@@ -403,7 +416,8 @@ void integer_grids() {
   const PV mpv[] = {PV(1, 0), PV(0, 1), PV(2, -3), PV(-1, 2)};
   // symmetric dyads over {-2..2}^6
   const long nsd = ipow(5, 6);
-  const std::vector<int> scales = std::is_same_v<T, float> ? std::vector<int>{0, -8, -20, -30, 20} : std::vector<int>{0, -8, -20, -40, -100, 20};
+  std::vector<int> scales = std::is_same_v<T, float> ? std::vector<int>{0, -8, -20, -30, 20} : std::vector<int>{0, -8, -20, -40, -100, 20};
+  scales.push_back((std::numeric_limits<T>::min_exponent - 6) / 3 - 1);  // 2^3e just below the smallest normal number: float -44, double -343, long double -5463
   for (long k = 0; k < nsd; k++) {
     if (!mine(k)) continue;
     const SD A = sd_at<T>(k, 5, 2);
@@ -415,6 +429,13 @@ void integer_grids() {
     const D E(A);
     expect<T>("Dyad(SymmetricDyad)", E, rm<LL>(A), DESC1(A));
     expect<T>("Dyad(SymmetricDyad).Determinant", E.Determinant(), r_det(rm<LL>(A)), DESC1(A));
+    // ... by assignment over a previous, different dyad as well as by construction
+    if constexpr (std::is_assignable_v<D&, const SD&>) {
+      D G = d_at<T>((k * 11 + 5) % ipow(3, 9), 3, 1);
+      G = A;
+      expect<T>("Dyad = SymmetricDyad", G, rm<LL>(A), DESC1(A));
+      expect<T>("(Dyad = SymmetricDyad).Determinant", G.Determinant(), r_det(rm<LL>(A)), DESC1(A));
+    }
     if (!E.IsSymmetric()) vf::viol(std::string("tensor|Dyad(SymmetricDyad).IsSymmetric|") + vf::TName<T>::value, "{\"operands\":" + vf::comps_hex(A) + "}");
     mat_arith<LL, T>("SymmetricDyad", A, sd_at<T>((k * 7 + 3) % nsd, 5, 2), (T)-2);
   }
